@@ -852,6 +852,7 @@ func walkerCase(r *rand.Rand, p walkProfile) Case {
 		}
 		tags = append(tags, "fns:local")
 	}
+	call.alt = chance(r, 0.5)
 	return call.toCase(tags, "")
 }
 
